@@ -819,9 +819,10 @@ def prevFor (env : Bytes → Var) (v : Var) : Var :=
   if (resolve env v).1 ≠ [] then (resolve env v).2 else v
 
 /-- The `switch prev.Kind` of `Runner.assignVal` for an appending array assignment `a+=(…)`: its
-    `default:` branch is `panic("unexpected conversion of kind %d")`.  `prev` is `prevFor env v`. -/
+    `default:` branch is `panic("unexpected conversion of kind %d")`.  `prev` is `prevFor env v`; a
+    nameref that did not resolve (empty target) is treated like an unset variable. -/
 def appendKind : VKind → Res Unit
-  | .unknown | .string | .indexed | .assoc => .ok ()
-  | .nameRef | .keepValue => .panic
+  | .unknown | .nameRef | .string | .indexed | .assoc => .ok ()   -- NameRef arm: fix 3a8d3f5
+  | .keepValue => .panic
 
 end ShVerif.C28
